@@ -17,13 +17,23 @@ Record bq_case := {
   q_rows : N; q_cols : N; q_nblocks : N; q_bs : N;
   q_alpha : Z; q_beta : Z; q_bias : N;       (* mode 2 *)
   q_sl : N; q_sq : N; q_ss : N; q_sc : N; q_sbias : N;
+  q_zb : N;              (* whole LHS quantisation blocks forced to zero: 0 none, 1 first, 2 middle, 3 last, 4 all *)
   q_out : option (list Z)      (* modes 0, 2: 4 * output; mode 1: round (1024 * output) *)
 }.
 
 Definition bq_of (c : bq_case) : bqmat ZK :=
   Build_bqmat ZK (q_cols c) (q_nblocks c) (q_bs c)
      (fun col idx => gbyte (q_sq c) col idx) (fun col blk => gscale4 (q_ss c) col blk).
-Definition lhs_of (c : bq_case) : mat ZK := fun i r => gen (q_sl c) i r.
+Definition zero_block (c : bq_case) (blk : N) : bool :=
+  match q_zb c with
+  | 0 => false
+  | 1 => blk =? 0
+  | 2 => blk =? q_nblocks c / 2
+  | 3 => blk =? q_nblocks c - 1
+  | _ => true
+  end.
+Definition lhs_of (c : bq_case) : mat ZK :=
+  fun i r => if zero_block c (r / q_bs c) then 0%Z else gen (q_sl c) i r.
 Definition wz (z : Z) : Z := z.
 Definition q_k (c : bq_case) : N := q_nblocks c * q_bs c.
 
